@@ -457,6 +457,20 @@ func init() {
 			}
 			return "e=nil;d=" + DumpB(pd.Elem()) + ";used=" + strconv.Itoa(len(buf.AcquireBytes())) + ";grew=" + grew
 		}
+		// second generation: the copy, whose bytes live in the buffer, copied again through the SAME buffer (roomy enough not
+		// to move) must again get bytes of its own - a buffer that recognises its own bytes and hands them back shares them
+		{
+			big := inspector.NewByteBuffer(1 << 16)
+			p1 := newOf(t, args[2])
+			if ins.CopyTo(a, p1.Interface(), big) == nil {
+				p2 := reflect.New(t)
+				if ins.CopyTo(p1.Interface(), p2.Interface(), big) == nil {
+					if sh := shareClasses(p1.Elem(), p2.Elem()); sh != "-" {
+						return "e=nil;COPY-OF-COPY-SHARES:" + sh
+					}
+				}
+			}
+		}
 		return judge(ins, ps.Interface(), ps.Elem(), pd.Elem(), before)
 	}
 }
